@@ -64,6 +64,11 @@ fn run_one(exe_rtbp: &Path, c: &Cfg, r: &mut Report) {
         "ok" | "nodirvar" => fs::write(bp.join("buildpack.toml"), DESCRIPTOR_OK).unwrap(),
         "unsupported" => fs::write(bp.join("buildpack.toml"), DESCRIPTOR_OK.replace("0.10", "0.9")).unwrap(),
         "malformed" => fs::write(bp.join("buildpack.toml"), "api = [broken").unwrap(),
+        // the supported version written in a way that is not a valid API version: "+0.10", "0.+10", "0.10.0", " 0.10", "00.10" is not THE supported one either
+        "plus" => fs::write(bp.join("buildpack.toml"), DESCRIPTOR_OK.replace("0.10", "+0.10")).unwrap(),
+        "plusminor" => fs::write(bp.join("buildpack.toml"), DESCRIPTOR_OK.replace("0.10", "0.+10")).unwrap(),
+        "threepart" => fs::write(bp.join("buildpack.toml"), DESCRIPTOR_OK.replace("0.10", "0.10.0")).unwrap(),
+        "padded" => fs::write(bp.join("buildpack.toml"), DESCRIPTOR_OK.replace("\"0.10\"", "\" 0.10\"")).unwrap(),
         _ => {}
     }
     let mut expected_env: Vec<(String, String)> = vec![];
@@ -71,7 +76,7 @@ fn run_one(exe_rtbp: &Path, c: &Cfg, r: &mut Report) {
         let e = platform.join("env");
         fs::create_dir_all(e.join("subdir")).unwrap();
         fs::write(e.join("subdir/INNER"), b"ignored").unwrap();
-        for (k, v) in [("A", "1"), ("EMPTY", ""), ("MULTI", "a\nb\n"), ("SP ACE", " padded "), ("UNICODE_é", "vä\u{1F600}"), ("DOTTED.NAME", "d"), ("COLLIDE.a", "a"), ("COLLIDE.b", "b"), ("TRAILING.", "t"), (".hidden", "h")] {
+        for (k, v) in [("A", "1"), ("EMPTY", ""), ("MULTI", "a\nb\n"), ("SP ACE", " padded "), ("UNICODE_é", "vä\u{1F600}"), ("DOTTED.NAME", "d"), ("COLLIDE.a", "a"), ("COLLIDE.b", "b"), ("TRAILING.", "t"), (".hidden", "h"), ("DATABASE_URL=primary", "eq-in-name"), ("=LEADING", "eq-first")] {
             fs::write(e.join(k), v).unwrap();
             expected_env.push((hex(k.as_bytes()), hex(v.as_bytes())));
         }
@@ -208,6 +213,7 @@ pub fn runtime(thorough: bool) -> Report {
         let behaviours: &[&'static str] = if thorough { &["pass", "error", "fail"] } else { &["pass"] };
         for b in behaviours { let mut c = Cfg::base(exe); c.argc_delta = d; c.toml = toml; c.behaviour = if exe == "build" && *b == "fail" { "error" } else { b }; cfgs.push(c); }
     } } }
+    for exe in ["detect", "build"] { for toml in ["plus", "plusminor", "threepart", "padded"] { let mut c = Cfg::base(exe); c.toml = toml; cfgs.push(c); } }
     for exe in ["detect", "build"] { for v in ["CNB_TARGET_OS", "CNB_TARGET_ARCH", "CNB_TARGET_ARCH_VARIANT", "CNB_TARGET_DISTRO_NAME", "CNB_TARGET_DISTRO_VERSION", "CNB_TARGET_ARCH_VARIANT="] {
         let mut c = Cfg::base(exe); c.missing_var = v; cfgs.push(c);
     } }
